@@ -612,6 +612,16 @@ class Interp:
             raise PyRaise('AttributeError', f"object has no attribute '{name}'")
         if isinstance(obj, ModuleRef):
             return obj.get(name)
+        if isinstance(obj, SuperProxy):
+            inst = obj.obj
+            ms = self.find_method(inst.cls, name, after=obj.cls)
+            if ms is None:
+                if name == '__init__':
+                    return lambda interp, *a, **k: None
+                raise PyRaise('AttributeError', f"super object has no attribute '{name}'")
+            fi = ms[0]
+            clo = self.make_closure(fi, [self.module_globals(fi.module)], fi.module)
+            return BoundMethod(inst, clo)
         if isinstance(obj, ClassRef):
             ms = self.find_method(obj.cls, name)
             if ms is not None:
